@@ -347,6 +347,92 @@ fn atom_oob<const D: usize>(base: &Tensor<E, D>, dims: &[usize; D], op: &str, id
     }
 }
 
+// access history on one object: a short sequence of accesses on ONE fresh tensor, judged step by step against a
+// shadow copy of the storage (valid index: the route's documented effect; out-of-range index: a panic, nothing changed)
+const ROUTES: &[&str] = &["index", "index_mut", "get_index", "write_read"];
+
+#[derive(Clone, Copy)]
+struct Step<const D: usize> {
+    op: &'static str,
+    idx: [usize; D],
+}
+
+fn route_name(op: &str) -> Option<&'static str> {
+    ROUTES.iter().copied().find(|r| *r == op)
+}
+
+fn steps_sig<const D: usize>(steps: &[Step<D>]) -> String {
+    steps.iter().map(|s| format!("{}{}", s.op, cd(&s.idx))).collect::<Vec<_>>().join(">")
+}
+
+fn steps_json<const D: usize>(steps: &[Step<D>]) -> Value {
+    json!(steps.iter().map(|s| json!({"op": s.op, "idx": s.idx.to_vec()})).collect::<Vec<_>>())
+}
+
+fn atom_seq<const D: usize>(dims: &[usize; D], steps: &[Step<D>]) -> Result<(), String> {
+    let n = product(dims);
+    let st = strides(dims);
+    let mut t = build(*dims)?;
+    let mut model: Vec<E> = (0..n).map(val).collect();
+    for (s, step) in steps.iter().enumerate() {
+        let idx = step.idx;
+        let valid = (0..D).all(|j| idx[j] < dims[j]);
+        let w: E = -100 - s as E;
+        let head = || format!(
+            "shape {}: on one fresh tensor (from_vec of 10,11,12,…) the accesses {} in this order; access #{} ({}{})",
+            cd(dims),
+            steps_sig(steps),
+            s + 1,
+            step.op,
+            cd(&idx)
+        );
+        let outcome: Result<String, String> = match step.op {
+            "index" => catch(|| t[idx]).map(|v| format!("read {v}")),
+            "get_index" => catch(|| t.get_index(idx)).map(|r| format!("returned {r}")),
+            "index_mut" => catch(|| {
+                t[idx] = w;
+            })
+            .map(|()| format!("wrote {w}")),
+            "write_read" => catch(|| {
+                t[idx] = w;
+                t[idx]
+            })
+            .map(|v| format!("wrote {w}, read back {v}")),
+            other => return Err(format!("unknown route {other}")),
+        };
+        if valid {
+            let off = flat(&idx, &st);
+            let want = match step.op {
+                "index" => format!("read {}", model[off]),
+                "get_index" => format!("returned {off}"),
+                "index_mut" => {
+                    model[off] = w;
+                    format!("wrote {w}")
+                }
+                _ => {
+                    model[off] = w;
+                    format!("wrote {w}, read back {w}")
+                }
+            };
+            match outcome {
+                Ok(got) if got == want => {}
+                Ok(got) => return Err(format!("{} is valid (storage element #{off}): expected `{want}`, observed `{got}`", head())),
+                Err(p) => return Err(format!("{} is valid but panicked: {p}", head())),
+            }
+        } else if let Ok(got) = outcome {
+            let got_data = data_of(&t);
+            let changed: Vec<usize> = (0..got_data.len().min(n)).filter(|&k| got_data[k] != model[k]).collect();
+            return Err(format!("{} is out of range in one dimension and must be rejected with a panic, but it {got} (storage elements changed by it: {changed:?})", head()));
+        }
+        let got_data = data_of(&t);
+        if got_data != model {
+            let changed: Vec<usize> = (0..got_data.len().min(n)).filter(|&k| got_data[k] != model[k]).collect();
+            return Err(format!("{}: afterwards the storage differs from the expected contents at element(s) {changed:?} (length {})", head(), got_data.len()));
+        }
+    }
+    Ok(())
+}
+
 const ZERO_OPS: &[&str] = &["new", "from_vec_empty", "from_slice_empty", "read"];
 
 fn atom_ctor_zero<const D: usize>(op: &str, dims: [usize; D]) -> Result<(), String> {
@@ -1017,6 +1103,8 @@ impl ReadCase<'_> {
 
 /// how far the Reader-side families go (by tier)
 struct ReadPlan {
+    /// access-history families run on shapes of at most this many elements
+    history_max_elems: usize,
     /// observed Reader buffer size (0: could not be observed, io_reader_refill is left out and the run cannot end
     /// with a clean verdict)
     rb: usize,
@@ -1754,10 +1842,13 @@ fn check_shape<const D: usize>(dv: &[usize], peers: &[Vec<usize>], me: usize, fi
         }
     };
 
+    // every atom below gets a tensor nothing has touched yet (exactly what its replay builds)
+    let fresh = || build(dims);
+
     // index_row_major, get_index (value k for the k-th index => distinct indices address distinct elements)
     for (k, idx) in idxs.iter().enumerate() {
-        acc.check("index_row_major", 1, atom_index(&base, &dims, *idx, k), || format!("{}:{}", cd(dv), cd(idx)), || rp(json!({"idx": idx.to_vec()})));
-        acc.check("get_index", 1, atom_get_index(&base, &dims, *idx, k), || format!("{}:{}", cd(dv), cd(idx)), || rp(json!({"idx": idx.to_vec()})));
+        acc.check("index_row_major", 1, fresh().and_then(|t| atom_index(&t, &dims, *idx, k)), || format!("{}:{}", cd(dv), cd(idx)), || rp(json!({"idx": idx.to_vec()})));
+        acc.check("get_index", 1, fresh().and_then(|t| atom_get_index(&t, &dims, *idx, k)), || format!("{}:{}", cd(dv), cd(idx)), || rp(json!({"idx": idx.to_vec()})));
         if flat_colmajor(idx, &dims) != k {
             acc.add("valid_indices_layout_sensitive", 1);
         }
@@ -1777,7 +1868,7 @@ fn check_shape<const D: usize>(dv: &[usize], peers: &[Vec<usize>], me: usize, fi
         acc.check(
             "index_mut_writes_one",
             n as u64 + 2,
-            atom_write_one(&base, &dims, *idx, k),
+            fresh().and_then(|t| atom_write_one(&t, &dims, *idx, k)),
             || format!("{}:{}", cd(dv), cd(idx)),
             || rp(json!({"idx": idx.to_vec()})),
         );
@@ -1806,7 +1897,7 @@ fn check_shape<const D: usize>(dv: &[usize], peers: &[Vec<usize>], me: usize, fi
                     }
                 }
                 for op in OOB_OPS {
-                    let r = atom_oob(&base, &dims, op, idx);
+                    let r = fresh().and_then(|t| atom_oob(&t, &dims, op, idx));
                     if first_inside == Some(idx) {
                         first_inside_outcomes.push(format!("{op}: {}", if r.is_ok() { "panicked" } else { "DID NOT PANIC" }));
                     }
@@ -1820,6 +1911,63 @@ fn check_shape<const D: usize>(dv: &[usize], peers: &[Vec<usize>], me: usize, fi
                     if inside {
                         acc.add("oob_panics_checked_with_offset_inside_storage", 1);
                     }
+                }
+            }
+        }
+    }
+
+    // access history: the same out-of-range probes as the second access on one object
+    let with_history = n <= plan.history_max_elems;
+    if with_history {
+        acc.add("shapes_with_access_history", 1);
+    }
+    let seq = |acc: &mut Acc, fam: &'static str, steps: &[Step<D>]| {
+        acc.check(fam, steps.len() as u64, atom_seq(&dims, steps), || format!("{}:{}", cd(dv), steps_sig(steps)), || rp(json!({"steps": steps_json(steps)})));
+    };
+    let mut corner_oob: Vec<[usize; D]> = vec![];
+    for j in 0..D {
+        let mut c = [0usize; D];
+        c[j] = dims[j];
+        corner_oob.push(c);
+    }
+    for j in 0..D {
+        let mut others = dims;
+        others[j] = 1;
+        let rest = if with_history { all_indices(&others) } else { vec![] };
+        for bad in [dims[j], dims[j] + 1, usize::MAX] {
+            for r in &rest {
+                let mut idx = *r;
+                idx[j] = bad;
+                for op in OOB_OPS {
+                    let Some(op) = route_name(op) else { continue };
+                    let probe = Step { op, idx };
+                    // (b) after each single valid access, through each route
+                    for prior in &idxs {
+                        for route in ROUTES {
+                            seq(&mut acc, "oob_after_access", &[Step { op: route, idx: *prior }, probe]);
+                        }
+                        if prior[..D - 1] == idx[..D - 1] {
+                            acc.add("oob_after_access_same_row", ROUTES.len() as u64);
+                        }
+                    }
+                    // (c) after a rejected attempt: the same index again, and each corner probe, through each route
+                    for pop in OOB_OPS {
+                        let Some(pop) = route_name(pop) else { continue };
+                        seq(&mut acc, "oob_after_rejected", &[Step { op: pop, idx }, probe]);
+                        for c in &corner_oob {
+                            seq(&mut acc, "oob_after_rejected", &[Step { op: pop, idx: *c }, probe]);
+                        }
+                    }
+                }
+            }
+        }
+    }
+    // bijection with history: every ordered pair of valid indices (equal ones too), every pair of routes
+    for a in idxs.iter().filter(|_| with_history) {
+        for b in &idxs {
+            for ra in ROUTES {
+                for rb in ROUTES {
+                    seq(&mut acc, "access_pairs", &[Step { op: ra, idx: *a }, Step { op: rb, idx: *b }]);
                 }
             }
         }
@@ -2044,6 +2192,17 @@ fn confirm_d<const D: usize>(v: &Value) -> Result<(), String> {
             atom_write_one(&build(dims)?, &dims, i, flat(&i, &st))
         }
         "oob_panics" => atom_oob(&build(dims)?, &dims, op, idx()?),
+        "oob_after_access" | "oob_after_rejected" | "access_pairs" => {
+            let mut steps: Vec<Step<D>> = vec![];
+            for sv in v["steps"].as_array().ok_or("replay: steps")? {
+                let i = usizes(&sv["idx"])?;
+                if i.len() != D {
+                    return Err("replay: step idx does not match the rank".into());
+                }
+                steps.push(Step { op: route_name(sv["op"].as_str().unwrap_or("")).ok_or("replay: unknown route")?, idx: to_arr(&i) });
+            }
+            atom_seq(&dims, &steps)
+        }
         "ctor_rejects_bad_len" => atom_bad_len(op, dims, v["len"].as_u64().ok_or("replay: len")? as usize),
         "io_roundtrip" | "write_format" => IoCase::from_replay(v)?.run(dims, fam == "write_format").map(|_| ()),
         "io_short_reads" | "io_reader_refill" => ReadCase::from_replay(v)?.run(dims).map(|_| ()),
@@ -2116,6 +2275,9 @@ const FAMILIES: &[&str] = &[
     "iter_order",
     "index_mut_writes_one",
     "oob_panics",
+    "oob_after_access",
+    "oob_after_rejected",
+    "access_pairs",
     "ctor_rejects_zero_extent",
     "ctor_rejects_bad_len",
     "io_roundtrip",
@@ -2162,7 +2324,7 @@ fn main() {
         (Some(rb), Some(rb2)) if rb == rb2 && rb >= 4 * FILL_WINDOW_MAX => rb,
         _ => 0,
     };
-    let plan = ReadPlan { rb, window: args.tier.pick(64, 128), refill_window: args.tier.pick(48, 128), all_cuts_up_to: args.tier.pick(512, 2048), max_piece: args.tier.pick(44, 64) };
+    let plan = ReadPlan { history_max_elems: args.tier.pick(36, usize::MAX), rb, window: args.tier.pick(64, 128), refill_window: args.tier.pick(48, 128), all_cuts_up_to: args.tier.pick(512, 2048), max_piece: args.tier.pick(44, 64) };
 
     // shapes, simplest first: rank, element count, lexicographic
     let mut per_rank: Vec<Vec<Vec<usize>>> = vec![];
@@ -2239,11 +2401,12 @@ fn main() {
         json!({"two_piece_cut_at_every_position_of_texts_up_to": plan.all_cuts_up_to.max(2 * plan.window), "else_head_and_tail_positions": plan.window, "bytes_per_read_from_1_to": plan.max_piece, "refill_at_every_position_of_texts_up_to": 2 * plan.refill_window, "else_refill_head_and_tail_positions": plan.refill_window}),
     );
     run.cov("max_rank", MAX_RANK as u64);
+    run.cov("history_max_elems", if plan.history_max_elems == usize::MAX { json!("unbounded") } else { json!(plan.history_max_elems) });
     run.cov("max_extent", max_extent as u64);
     run.cov("families", json!(FAMILIES));
     run.cov(
         "rule",
-        "every shape of rank 1..=4 with extents 1..=max_extent (ordered by rank, element count, lexicographic); per shape: every valid multi-index (odometer, last coordinate fastest; the k-th must address storage element k of from_vec(10,11,…)) for Index, get_index and a write through IndexMut; from_slice, new + one write per index, iter/iter_mut/into_iter; every index with exactly one coordinate set to extent, extent+1 or usize::MAX and all other coordinates over all valid values, for get_index, Index and IndexMut (must panic); data lengths 0, n-1, n+1 for from_vec/from_slice (must panic); every shape with extents 0..=max_extent containing a 0 for new, from_vec(empty), from_slice(empty), Tensor::read (must panic); write→Tensor::read round trip and text layout for i32, u64, u128, i128 and String elements with every rotation of a boundary value list (the 128-bit lists hold every power of ten with its neighbours and values with zeros directly below a digit-group boundary); == for same shape same data, same shape one element changed (every position), and every unordered pair of distinct shapes of the same rank; copies: t.clone() for every shape and target.clone_from(&source) for every ORDERED pair of same-rank shapes (target of the same shape, of another shape with the same element count, with more elements, with fewer elements; the target holds 5000,5001,… before the call), the copy being examined like a constructed tensor: dims()/dim(i) are the source's, iter() and every valid index through Index and get_index give the row-major sequence, every index with one coordinate = its extent (others over all valid values) panics, copy == source both ways, write → Tensor::read with the source's shape gives the source back, a write through IndexMut at the last index changes exactly the last element. Writer history: io_roundtrip and write_format also run, for every shape and element type with the first rotation of its list, with `fill` bytes of earlier output ('#' filler) pending in the same Writer, for every fill in observed_writer_buffer_size-W..=observed_writer_buffer_size+1 (W = 64 quick, 256 thorough; the buffer size is observed by feeding single bytes until the sink is offered its first write): the filler must arrive intact, and the text after it must read back (from where the tensor starts) as the tensor and be the documented layout; flush_forced_by_* count the cases in which the sink's first write ended inside the tensor's text, by the piece (space, newline, minus sign, element) that no longer fitted. Buffer-sized elements: for every shape of at most 4 elements, io_roundtrip and write_format with every rotation of a String list that alternates short tokens with tokens of observed_writer_buffer_size-1, exactly that, and +1 bytes, so an element that cannot share the buffer with what was written before it stands at every position. Reader side (io_short_reads, io_reader_refill): for every shape and every element kind of read_types (i32, u64, u128, i128, String, a tuple (String, i128), and the other integer widths i8, i16, i64, isize, u8, u16, u32, usize with the extremes of every width that fit), tensor A (first rotation of the kind's list) and tensor B of the same shape (the list continued) go through ONE Writer, separated by a newline, and are read back through ONE Reader with Tensor::read twice; both must come back exactly. io_short_reads: the Reader's source is a `Read` that delivers the text in pieces: all at once; two pieces cut at EVERY position of the text (texts longer than read_plan.two_piece_cut_at_every_position_of_texts_up_to: every position among the first and the last else_head_and_tail_positions); k bytes per read for every k in 1..=bytes_per_read_from_1_to; and for shapes of at most 4 elements every rotation of the list with 1, 2 and 3 bytes per read, so every listed value is split behind every one of its bytes. io_reader_refill: the source fills the Reader's buffer completely, and a padding token ('#' filler, written through the same Writer and read as a String through the same Reader, must come back intact) and a newline before the tensors are sized from the OBSERVED Reader buffer size (length of the buffer a fresh Reader offers its source) so that the Reader's first refill falls at position p of the tensors' text, for every p in 0..=length (longer texts: the first and last else_refill_head_and_tail_positions; p = length: the input ends exactly where the buffer does); the first six kinds for every shape, the other widths for shapes of at most 4 elements. short_reads_cut_* / refill_* count the places where the Reader actually went back to its source (recorded by the source), by what stands on either side: strictly inside an integer token, right behind a minus sign, inside a String token, right before / right after a token, between two separator bytes. Element types (elem_*): for T in (), a unit struct, bool, u8, a 24-byte struct (values differ in the last field) and String, per shape: from_vec / from_slice / new + one write per index examined (dims(), iter(), every valid index through Index and get_index, every index with one coordinate = extent or usize::MAX rejected by Index, get_index and IndexMut without changing the tensor, a write at every valid index changes exactly that element); == of a tensor with itself, with its clone, with one rebuilt from a slice (true), with one element changed at every position (false; types with a second value), with every other shape of the same rank holding the same element sequence, equal or different element count (false, both ways, != true); clone() examined the same way and independent of its source; target.clone_from(&source) for every ORDERED pair of same-rank shapes (dims, elements, equality both ways, independence). distinct_nontrivial = MEASURED number of distinct (shape, out-of-range index) cases whose flattened offset sum idx*stride is still inside the storage (aliasing is possible without the per-dimension check) + distinct (shape, valid index) cases whose row-major offset differs from the column-major offset (a stride-order error is observable)",
+        "every shape of rank 1..=4 with extents 1..=max_extent (ordered by rank, element count, lexicographic); per shape: every valid multi-index (odometer, last coordinate fastest; the k-th must address storage element k of from_vec(10,11,…)) for Index, get_index and a write through IndexMut; from_slice, new + one write per index, iter/iter_mut/into_iter; every index with exactly one coordinate set to extent, extent+1 or usize::MAX and all other coordinates over all valid values, for get_index, Index and IndexMut (must panic), each on a tensor nothing has accessed before (every single-access case builds its own tensor); ACCESS HISTORY on the same object, for every shape of at most history_max_elems elements (36 quick, all shapes thorough; shapes_with_access_history counts them) (families oob_after_access, oob_after_rejected, access_pairs; counts under those keys, oob_after_access_same_row = those whose earlier access addressed the probe's row): a sequence of two accesses on ONE fresh tensor is judged step by step against a shadow copy of the storage - every one of those out-of-range probes through each of the three routes is repeated after EVERY single earlier valid access (every valid index, through each of the routes Index, IndexMut, get_index, write-then-read) and after an earlier rejected attempt (the same index and, per dimension, the index with that coordinate = extent and the others 0, through each route; the panic is caught), and must still panic and leave the storage unchanged; and every ORDERED pair of valid indices (equal ones included) x every ordered pair of routes is run as two consecutive accesses: each read sees what the shadow holds, get_index the row-major offset, each write changes exactly its own element; the replay carries the whole sequence and runs it on a fresh tensor; data lengths 0, n-1, n+1 for from_vec/from_slice (must panic); every shape with extents 0..=max_extent containing a 0 for new, from_vec(empty), from_slice(empty), Tensor::read (must panic); write→Tensor::read round trip and text layout for i32, u64, u128, i128 and String elements with every rotation of a boundary value list (the 128-bit lists hold every power of ten with its neighbours and values with zeros directly below a digit-group boundary); == for same shape same data, same shape one element changed (every position), and every unordered pair of distinct shapes of the same rank; copies: t.clone() for every shape and target.clone_from(&source) for every ORDERED pair of same-rank shapes (target of the same shape, of another shape with the same element count, with more elements, with fewer elements; the target holds 5000,5001,… before the call), the copy being examined like a constructed tensor: dims()/dim(i) are the source's, iter() and every valid index through Index and get_index give the row-major sequence, every index with one coordinate = its extent (others over all valid values) panics, copy == source both ways, write → Tensor::read with the source's shape gives the source back, a write through IndexMut at the last index changes exactly the last element. Writer history: io_roundtrip and write_format also run, for every shape and element type with the first rotation of its list, with `fill` bytes of earlier output ('#' filler) pending in the same Writer, for every fill in observed_writer_buffer_size-W..=observed_writer_buffer_size+1 (W = 64 quick, 256 thorough; the buffer size is observed by feeding single bytes until the sink is offered its first write): the filler must arrive intact, and the text after it must read back (from where the tensor starts) as the tensor and be the documented layout; flush_forced_by_* count the cases in which the sink's first write ended inside the tensor's text, by the piece (space, newline, minus sign, element) that no longer fitted. Buffer-sized elements: for every shape of at most 4 elements, io_roundtrip and write_format with every rotation of a String list that alternates short tokens with tokens of observed_writer_buffer_size-1, exactly that, and +1 bytes, so an element that cannot share the buffer with what was written before it stands at every position. Reader side (io_short_reads, io_reader_refill): for every shape and every element kind of read_types (i32, u64, u128, i128, String, a tuple (String, i128), and the other integer widths i8, i16, i64, isize, u8, u16, u32, usize with the extremes of every width that fit), tensor A (first rotation of the kind's list) and tensor B of the same shape (the list continued) go through ONE Writer, separated by a newline, and are read back through ONE Reader with Tensor::read twice; both must come back exactly. io_short_reads: the Reader's source is a `Read` that delivers the text in pieces: all at once; two pieces cut at EVERY position of the text (texts longer than read_plan.two_piece_cut_at_every_position_of_texts_up_to: every position among the first and the last else_head_and_tail_positions); k bytes per read for every k in 1..=bytes_per_read_from_1_to; and for shapes of at most 4 elements every rotation of the list with 1, 2 and 3 bytes per read, so every listed value is split behind every one of its bytes. io_reader_refill: the source fills the Reader's buffer completely, and a padding token ('#' filler, written through the same Writer and read as a String through the same Reader, must come back intact) and a newline before the tensors are sized from the OBSERVED Reader buffer size (length of the buffer a fresh Reader offers its source) so that the Reader's first refill falls at position p of the tensors' text, for every p in 0..=length (longer texts: the first and last else_refill_head_and_tail_positions; p = length: the input ends exactly where the buffer does); the first six kinds for every shape, the other widths for shapes of at most 4 elements. short_reads_cut_* / refill_* count the places where the Reader actually went back to its source (recorded by the source), by what stands on either side: strictly inside an integer token, right behind a minus sign, inside a String token, right before / right after a token, between two separator bytes. Element types (elem_*): for T in (), a unit struct, bool, u8, a 24-byte struct (values differ in the last field) and String, per shape: from_vec / from_slice / new + one write per index examined (dims(), iter(), every valid index through Index and get_index, every index with one coordinate = extent or usize::MAX rejected by Index, get_index and IndexMut without changing the tensor, a write at every valid index changes exactly that element); == of a tensor with itself, with its clone, with one rebuilt from a slice (true), with one element changed at every position (false; types with a second value), with every other shape of the same rank holding the same element sequence, equal or different element count (false, both ways, != true); clone() examined the same way and independent of its source; target.clone_from(&source) for every ORDERED pair of same-rank shapes (dims, elements, equality both ways, independence). distinct_nontrivial = MEASURED number of distinct (shape, out-of-range index) cases whose flattened offset sum idx*stride is still inside the storage (aliasing is possible without the per-dimension check) + distinct (shape, valid index) cases whose row-major offset differs from the column-major offset (a stride-order error is observable)",
     );
     run.cov("exhaustive", true);
     run.cov(
